@@ -32,3 +32,38 @@ package compiler
 //@ func (*StepCompileMeta).handleFunctions
 //@   property C14 C15
 //@   requires [wired] s.funcRegisterer != nil
+
+// C05: scope keyword -> output scope. The scope of every compiled service is the image of the declared
+// scope of the service with the same name (unset -> default); nothing else in *o changes.
+//@ spec convScope(p *input.Scope) output.Scope =
+//@   p == nil ? output.ScopeDefault :
+//@   (*p == input.ScopeShared ? output.ScopeShared :
+//@   (*p == input.ScopeContextual ? output.ScopeContextual :
+//@   (*p == input.ScopeNonShared ? output.ScopeNonShared : output.ScopeDefault)))
+
+//@ func (StepCompileServices).processScopes
+//@   property C05
+//@   requires o != nil
+//@   requires [declared_scopes_are_keywords] forall n string :: n in i.Services && i.Services[n].Scope != nil ==>
+//@              (*i.Services[n].Scope == input.ScopeShared || *i.Services[n].Scope == input.ScopeContextual || *i.Services[n].Scope == input.ScopeNonShared)
+//@   modifies o.Services
+//@   ensures [len] len(o.Services) == len(old(o.Services))
+//@   ensures [scope] forall j int :: 0 <= j && j < len(o.Services) ==> o.Services[j].Scope == convScope(i.Services[old(o.Services)[j].Name].Scope)
+//@   ensures [rest_unchanged] forall j int :: 0 <= j && j < len(o.Services) ==>
+//@             o.Services[j].Name == old(o.Services)[j].Name && o.Services[j].Getter == old(o.Services)[j].Getter
+//@          && o.Services[j].MustGetter == old(o.Services)[j].MustGetter && o.Services[j].Type == old(o.Services)[j].Type
+//@          && o.Services[j].Value == old(o.Services)[j].Value && o.Services[j].Constructor == old(o.Services)[j].Constructor
+//@          && o.Services[j].Args == old(o.Services)[j].Args && o.Services[j].Calls == old(o.Services)[j].Calls
+//@          && o.Services[j].Fields == old(o.Services)[j].Fields && o.Services[j].Tags == old(o.Services)[j].Tags
+//@          && o.Services[j].Todo == old(o.Services)[j].Todo
+//@   loop 1
+//@     invariant [len] len(o.Services) == len(old(o.Services))
+//@     invariant [done] forall j int :: 0 <= j && j < $i ==> o.Services[j].Scope == convScope(i.Services[old(o.Services)[j].Name].Scope)
+//@     invariant [todo] forall j int :: $i <= j && j < len(o.Services) ==> o.Services[j] == old(o.Services)[j]
+//@     invariant [rest] forall j int :: 0 <= j && j < len(o.Services) ==>
+//@             o.Services[j].Name == old(o.Services)[j].Name && o.Services[j].Getter == old(o.Services)[j].Getter
+//@          && o.Services[j].MustGetter == old(o.Services)[j].MustGetter && o.Services[j].Type == old(o.Services)[j].Type
+//@          && o.Services[j].Value == old(o.Services)[j].Value && o.Services[j].Constructor == old(o.Services)[j].Constructor
+//@          && o.Services[j].Args == old(o.Services)[j].Args && o.Services[j].Calls == old(o.Services)[j].Calls
+//@          && o.Services[j].Fields == old(o.Services)[j].Fields && o.Services[j].Tags == old(o.Services)[j].Tags
+//@          && o.Services[j].Todo == old(o.Services)[j].Todo
